@@ -70,7 +70,18 @@ int mc_pick(int n, const char * l){ (void)n; (void)l; return 0; }
 void mc_note(const char * f, ...){ (void)f; }
 int mc_noting(void){ return 0; }
 static const char * fam_now; static char hist_now[80]; static int mode; static size_t failk;
-void mc_cut(const char * why){ fprintf(stderr, "scenario %s %s (k=%zu mode=%d) would block: %s\n", fam_now, hist_now, failk, mode, why); fflush(stdout); _exit(3); }	/* a scenario must never block: loud harness error */
+static void viol(const char * rule, const char * fmt, ...);
+/*
+ * No scenario blocks on the unchanged library (each was run to completion without faults before any fault is injected,
+ * and a scenario that blocks even then is an engine error in run_unit).  If the loop ends up waiting for ever once an
+ * allocation has been refused, the failed operation left something behind (a descriptor still polled, a request that
+ * can no longer complete): that is a violation, reported from the child and not a harness error.
+ */
+void mc_cut(const char * why){
+	if (alloc_failed_count() == 0) { fprintf(stderr, "scenario %s %s (k=%zu mode=%d) would block: %s\n", fam_now, hist_now, failk, mode, why); fflush(stdout); _exit(3); }
+	viol("hang", "after the refused allocation the event loop waits for ever (%s): a failed operation left something registered or a request that can no longer complete", why);
+	fflush(stdout); _exit(0);
+}
 
 size_t verif_ea_size(const struct elasticarray *); size_t verif_ea_alloc(const struct elasticarray *); void * verif_ea_buf(const struct elasticarray *);
 size_t verif_eq_offset(const struct elasticqueue *); size_t verif_eq_len(const struct elasticqueue *); struct elasticarray * verif_eq_ea(const struct elasticqueue *);
